@@ -284,10 +284,34 @@ class Model:
                 return r
         return recs[0]
 
+    def _by_receiver_type(self, mod: ModuleInfo, call: ast.Call) -> list[str] | None:
+        """A call whose record says "receiver typed Any" while the receiver expression itself is typed: the inliner
+        substituted an argument of the caller (typed there) for a parameter of the helper (annotated Any).  Resolved
+        through the classes of the receiver, with the overrides of their subclasses."""
+        if not isinstance(call.func, ast.Attribute):
+            return None
+        cs = [c for c in self.type_classes(mod, call.func.value) if c in self.classes]
+        if not cs:
+            return None
+        out: set[str] = set()
+        for c in cs:
+            f = self.effective(c, call.func.attr)
+            if f is not None:
+                out.add(f.qualname)
+            for sub in self.subclasses.get(c, ()):
+                sc = self.classes.get(sub)
+                if sc is not None and call.func.attr in sc.methods:
+                    out.add(sc.methods[call.func.attr].qualname)
+        return sorted(out) or None
+
     def callees(self, mod: ModuleInfo, call: ast.Call, by_name: bool = True) -> list[str]:
         r = self.call_record(mod, call)
         if r is None:
             return []
+        if r[5] in ('any', 'untyped'):
+            typed = self._by_receiver_type(mod, call)
+            if typed is not None:
+                return typed
         if by_name and r[5] in ('any', 'untyped') and isinstance(call.func, ast.Attribute):
             # receiver typed Any: resolve by method name over all classes of the model (flagged name-resolved)
             nm = call.func.attr
@@ -350,6 +374,10 @@ class Model:
         r = self.call_record(mod, call)
         if r is None:
             return []
+        if r[5] in ('any', 'untyped'):
+            typed = self._by_receiver_type(mod, call)
+            if typed is not None:
+                return typed
         out = set(r[4])
         recv = r[6] if len(r) > 6 else []
         if r[5] == 'method' and isinstance(call.func, ast.Attribute) and not (isinstance(call.func.value, ast.Call) and isinstance(call.func.value.func, ast.Name) and call.func.value.func.id == 'super'):
